@@ -421,7 +421,7 @@ def gen_rpms(rng):
     checklib.use_repo()
     import productmd.common
     arches = [a for a in productmd.common.RPM_ARCHES if a not in ("src", "nosrc")]
-    rpms, upper = {}, []
+    rpms, upper, upper_srpms = {}, [], []
     for variant in rng.sample(["Server", "Client", "Server-optional", "Workstation", "x"], rng.randint(1, 3)):
         varches = rng.sample(arches, rng.randint(1, 3))
         if rng.random() < 0.5:
@@ -430,12 +430,19 @@ def gen_rpms(rng):
             name, epoch = rng.choice(R_NAMES), rng.choice([0, 0, 1, 12])
             ver, rel = rng.choice(R_VERSIONS), rng.choice(R_RELEASES)
             srcarch = rng.choice(["src", "src", "nosrc"])
+            reused = False
+            if upper_srpms and rng.random() < 0.5:
+                # the SAME source package as in an earlier variant (other path, other signing key there): each variant has its
+                # own src table, nothing of another variant's may be filed here (seed C05-x5b)
+                name, epoch, ver, rel, srcarch = rng.choice(upper_srpms)
+                reused = True
+            upper_srpms.append((name, epoch, ver, rel, srcarch))
             srpm = "%s-%d:%s-%s.%s" % (name, epoch, ver, rel, srcarch)
             if any(srpm in cell for cell in rpms.get(variant, {}).values()):
                 continue                                # one source package, one entry in the variant's src table
             sdata = {"path": "%s/source/SRPMS/%s/%s-%s-%s.%s.rpm" % (variant, name[0], name, ver, rel, srcarch),
                      "sigkey": rng.choice(R_SIGKEYS), "category": "source"}
-            with_src = rng.random() < 0.75
+            with_src = rng.random() < (0.5 if reused else 0.75)
             for arch in rng.sample(varches, rng.randint(1, len(varches))):
                 cell = rpms.setdefault(variant, {}).setdefault(arch, {}).setdefault(srpm, {})
                 for sub in rng.sample(["", "-libs", "-devel", "-doc", "-debuginfo"], rng.randint(1, 3)):
